@@ -74,6 +74,13 @@ func init() {
 			if c.Family == "rawsrv" && c.S["dev"] == "retarget-unknown-id" {
 				out = append(out, c)
 			}
+			// raw client deviations that are tunnel-level violations: the serving side gives the tunnel up
+			if c.Family == "rawconv" {
+				switch c.S["dev"] {
+				case "insert-frame-unknown-id", "insert-new-dup", "insert-new-lower", "retarget-unknown":
+					out = append(out, c)
+				}
+			}
 		}
 		out = append(out, only(base["C11"](t, s), "settings", 1)...)
 		return out
